@@ -230,6 +230,11 @@ Definition dvf_visit_prefix (ok : oracle) : DvF -> bytes -> N -> fres DvF (list 
 Definition dvf_visit_prefix_lin (ok : oracle) : DvF -> bytes -> N -> fres DvF (list (bytes * bytes)) :=
   dvf_visit_with (dvf_load_prefix ok) dv_visit_loaded.
 
+(* the repaired reader, searching as Go does (Faults_Proofs.dvf_visit_bin_eq:
+   equal to dvf_visit on every state the repaired reader can be in) *)
+Definition dvf_visit_bin (ok : oracle) : DvF -> bytes -> N -> fres DvF (list (bytes * bytes)) :=
+  dvf_visit_with (dvf_load ok) dv_visit_loaded_bin.
+
 (* a sequence of VisitDocumentValues calls on one DocumentValueReader; the
    reader stays in use after an error; a panic ends the run *)
 Fixpoint dvf_run_with (visit : DvF -> bytes -> N -> fres DvF (list (bytes * bytes)))
